@@ -4,7 +4,8 @@
      10+k : the same case on the same decoder, verdict = totality only (non-ASCII inputs)
      20 cri faithful (#time #stream #tag #log) | 21 postgres faithful (14 fields) |
      25 csv faithful (delim (#field ...))
-     7 json cut (#path limit #data)      obs = (validIn validOut out (index strlen valid exists isString))
+     7 json cut (#path limit #data) | 8 ((#path limit) ... #data)
+                                         obs = (validIn validOut out ((index strlen valid exists isString) ...))
    No proofs here. *)
 From Verif Require Import Base.Sx Base.GoSem Model.Decoders.Common Model.Decoders.Cri Model.Decoders.Postgres
   Model.Decoders.Nginx Model.Decoders.Syslog Model.Decoders.SyslogRfc3164 Model.Decoders.SyslogRfc5424
@@ -118,9 +119,20 @@ Definition json_cut_run (many : bool) (case obs : sx) : verdict :=
                    | true, _ => json_cut_many data found
                    end in
           let m := sx_of_res SB r in
-          (* the property: the decoder does not crash and a valid document stays valid *)
+          (* the property: the decoder does not crash, a valid document stays valid, and the output is the
+             input with nothing but the named strings shortened to a prefix of their raw text
+             (json_cut_framed, the boolean form of cut_keeps_framing / c12_json_cut_spec);
+             the model is more specific (it also fixes HOW MUCH of each string is kept): Differ *)
           if is_bad_obs out || (vin && negb vout) then Violates m
-          else if sx_eqb m out then Agree else Differ m
+          else match out with
+               | SL [SZ 0; SB o] =>
+                   match json_cut_framed data found o with
+                   | Some false => Violates m
+                   | Some true => if sx_eqb m out then Agree else Differ m
+                   | None => Differ m             (* gjson's Index is not the opening quote of a string *)
+                   end
+               | _ => BadCase
+               end
       | _, _, _ => BadCase
       end
   | _, _ => BadCase
